@@ -106,6 +106,16 @@ CHECKS = {
         "Trusted: BinaryCarver itself (decided by C01-C04); this check decides the composition only.",
         "DESIGN.md §4 C12",
     ),
+    "C16": (
+        "PBT with independent recomputation: summary() cross-checked against transform on one-row probe frames and "
+        "values_orders; history() re-derived with the C01 brute-force reference (measures, completeness, viable flag)",
+        "Fitted carvers and Discretizer-family objects; summary rows vs known values / transform labels / missing-value "
+        "placement; for Binary/ContinuousCarver every stage-1 grouping must appear exactly once in history with the "
+        "recomputed measure and the last viable record must be the fitted grouping. Exploration.",
+        "Trusted: C01's reference measures; base modalities from an identically configured Discretizer. The own row of "
+        "un-merged missing values (dropna=False) is not judged.",
+        "DESIGN.md §4 C16",
+    ),
     "C04": (
         "PBT with a reference oracle: table-first generated samples, transform(X_train) compared with the "
         "mapping recomputed from values_orders (list+content) only; metamorphic string-form probe",
